@@ -82,6 +82,8 @@ theorem slotLeaf : Leaf (SlotView P) where
   setStopping := by unfold setStopping; slot_same
   setRestarting := by unfold setRestarting; slot_same
   setLoopStop := fun b => by unfold setLoopStop; slot_same
+  setSocketEvent := fun b => by unfold setSocketEvent; slot_same
+  setSockReady := fun b => by unfold setSockReady; slot_same
   clearDone := by unfold clearDone; slot_same
   unregister := fun u => by unfold unregisterWatcher; slot_same
   registerNew := fun w _ => by
